@@ -151,29 +151,20 @@ func (b *BitcoinOnChain) GetVoutAndVerify(txHex string, params *swap.OpeningPara
 		return false, 0, err
 	}
 
-	var scriptOut *wire.TxOut
-	var vout uint32
-	for i, out := range msgTx.TxOut {
-		if out.Value == int64(params.Amount) {
-			scriptOut = out
-			vout = uint32(i)
-			break
-		}
-	}
-	if scriptOut == nil {
-		return false, 0, err
-	}
-
 	wantScript, err := b.GetOutputScript(params)
 	if err != nil {
 		return false, 0, err
 	}
 
-	if bytes.Compare(wantScript, scriptOut.PkScript) != 0 {
-		return false, 0, err
+	// The swap output is the output that carries the swap amount AND pays to
+	// the swap script: a change output may happen to have the same value.
+	for i, out := range msgTx.TxOut {
+		if out.Value == int64(params.Amount) && bytes.Equal(wantScript, out.PkScript) {
+			return true, uint32(i), nil
+		}
 	}
 
-	return true, vout, nil
+	return false, 0, nil
 }
 
 func (b *BitcoinOnChain) GetOutputScript(params *swap.OpeningParams) ([]byte, error) {
